@@ -218,14 +218,18 @@ func (x *hW) legalStep(op int) {
 		x.opSetRelation(i, hRelOf(x.set[i]), x.pickOKTarget("tgt"))
 	case 10: // Relations.Exchange / Builder.Add with target
 		i := x.pickAliveIdx("ent")
-		api := vChoice("api", 2)
+		api := vChoice("api", 3) // Relations.Exchange / Builder.Add from ids / Builder.Add from component values
 		wantRem := -1
-		if api == 1 {
+		if api >= 1 {
 			wantRem = 0
 		}
 		add, rem := x.pickXchg(i, -1, wantRem, true)
 		r := hRelOf((x.set[i] &^ rem) | add)
-		x.opRelExchange(i, add, rem, r, x.pickOKTarget("tgt"), api)
+		if api == 2 {
+			x.opBuilderAddWith(i, add, r, x.pickOKTarget("tgt"))
+		} else {
+			x.opRelExchange(i, add, rem, r, x.pickOKTarget("tgt"), api)
+		}
 	}
 }
 
